@@ -26,6 +26,7 @@ const (
 	KImport       = "import"
 	KExport       = "export"
 	KRaw          = "raw" // raw request (transport-fault profiles)
+	KSleep        = "sleep" // the client waits (simulated time)
 )
 
 type PostingSpec struct {
@@ -102,6 +103,9 @@ type Op struct {
 	ImportTo   int    `json:"import_to,omitempty"`   // import only logs with id <= this
 	Remainder  bool   `json:"remainder,omitempty"`   // import the logs the destination does not have yet
 	Raw     *Request `json:"raw,omitempty"`
+	Capture string   `json:"capture,omitempty"` // raw admin requests: remember data.id under this name ("reset": mark a reset)
+	SleepMs int      `json:"sleep_ms,omitempty"`
+	Keep    bool     `json:"keep,omitempty"` // never removed by the minimiser (later ops depend on its answer)
 	Chunked int      `json:"chunked,omitempty"`
 }
 
